@@ -11,6 +11,19 @@ PROG = ("Typed random ChiaDialect programs (grammar over all operators, env path
         "recursion templates, softfork guards with measured exact costs and wrong/malformed ones, unknown opcodes, structural mutations) ")
 
 PROPS = {
+    "C01": {
+        "variants": REL,
+        "log": True,
+        "py": "pymon.c01check",
+        "budget_s": (25, 1500),
+        "min_nontrivial": {"quick": 2000, "thorough": 20000},
+        "rule": "Typed random programs over the classic operator set (opcodes 1-36 without 29/30; non-canonical ints, leading-zero paths, ((X) . raw) forms, recursion/accumulator loops, unknown multi-byte opcodes, softfork guards, structural mutations) and "
+                "directed interpreter corner cases, run by the real interpreter with default flags at budget 5e7 and at {C, C-1, C+1, random}; every logged run is replayed by pymon/refclvm.py (independent interpreter after the historical Python clvm with the named "
+                "adapters div-floor, softfork-guard, u64-cost) and success/failure, cost and result bytes are compared. The reference must first reproduce the repository's 6000+ op-test vectors. Programs that execute an opcode assigned after the classic set are skipped. "
+                "Disagreements that exist only under a rule known from memory (`recalled`: nil terminator of the inner list in ((X . t)...), as_iter failure on improper raw operand lists) are reported as UNCORROBORATED-DIVERGENCE, not as violations. "
+                "Non-trivial: reference succeeds and applied >=2 operators.",
+        "assumptions": COMMON_ASSUMPTIONS + ["the Python clvm package is not installed; the reference is an independent re-implementation validated against op-tests/*.txt"],
+    },
     "C02": {
         "variants": REL,
         "budget_s": (30, 1500),
@@ -62,6 +75,31 @@ PROPS = {
                 "run on ChiaDialect(F) and on a harness HidingDialect(F) that maps every extension to Default and routes the two 4-byte secp opcodes to op_unknown; F non-strict without NEW_COST_MODEL. "
                 "When the aware run succeeds the hiding run must give the same result, cost and atom/pair/heap counts. Non-trivial: aware run succeeded and entered >=1 guard or contains a 4-byte secp opcode.",
         "assumptions": COMMON_ASSUMPTIONS + ["HidingDialect (harness) is the model of an extension-unaware node"],
+    },
+    "C09": {
+        "variants": REL,
+        "log": True,
+        "py": "pymon.c09check",
+        "budget_s": (25, 1500),
+        "exhaustive_key": "log:exhaustive_opcodes",
+        "min_nontrivial": {"quick": 5000, "thorough": 50000},
+        "must_observe": ["log:exhaustive_opcodes", "log:overflow_corner_cases", "expected_fail:product exceeds 2^32-1", "expected_fail:reserved", "expected_fail:pair argument", "expected_fail:cost", "expected_fail:strict mode"],
+        "rule": "EXHAUSTIVE 1- and 2-byte opcodes x 6 argument shapes x both cost models through op_unknown; directed overflow corner (two ~800 KB operands, multiplier chosen so that the true product is >= 2^64); random 1-8 byte opcodes (ffff prefixes, leading zeros, "
+                "5/6-byte) x 0-12 atoms incl. multi-MB operands and pairs at each position x budgets x flag sets, through op_unknown, ChiaDialect::op and RuntimeDialect::op (opcodes the dialect assigns are skipped). Oracle: pymon/c09check.py evaluates the published rule with "
+                "unbounded integers: nil + (multiplier+1)*base; failure for empty/ffff/>5-byte opcodes, pair arguments, base > budget, product > 2^32-1, strict mode. Non-trivial: multi-byte opcode or non-empty argument list.",
+        "assumptions": COMMON_ASSUMPTIONS,
+    },
+    "C10": {
+        "variants": REL,
+        "log": True,
+        "py": "pymon.c10check",
+        "budget_s": (25, 1500),
+        "min_nontrivial": {"quick": 5000, "thorough": 50000},
+        "must_observe": ["log:program_level_calls", "new:sha256tree", "old:sha256tree", "new:modpow", "old:*", "new:bls_verify"],
+        "rule": "Every ChiaDialect operator called directly on signature-aware argument lists (sizes 0..MBs, leading zeros, negatives, long lists, DAG arguments for sha256tree) under {old,new} cost model x {num-bigint, MALACHITE}, plus (op (q . a)...) through run_program. For every "
+                "SUCCESSFUL call pymon/c10check.py recomputes the documented cost from argument sizes / python-int accumulators / result size (refclvm operator formulas, validated against 6000+ op-test vectors; size-only formulas for BLS/secp) and compares it with the charged cost; "
+                "program-level calls add the closed-form overhead 1+20n. Non-trivial: every successful call with a distinct (operator, model, argument-size) key.",
+        "assumptions": COMMON_ASSUMPTIONS + ["where docs/cost-model.md and the source comments disagree (new-model add/sub and logand/ior/xor use atom length, not limbs, for the argument) the source + v2 vectors are taken as the documented formula"],
     },
     "C11": {
         "variants": REL,
